@@ -610,5 +610,16 @@ def run(ck, prog):
     # is a prerequisite of "a child gets exactly the parent's sampled decision"
     from . import c05
     ck.doc('C05.R1', '(prerequisite, see C05) the tracer encodes exactly the sampler\'s IsSampled() decision into the sampled flag', 2)
-    c05.rule_r1(ck, prog, prog.function('sdk::trace::Tracer::StartSpan'))
+    sf = prog.function('sdk::trace::Tracer::StartSpan')
+    c05.rule_r1(ck, prog, sf)
+    # "the parent's sampled decision and the parent's trace state" reach the new span only if the tracer hands the sampler the
+    # resolved parent and builds the context (recorded or not) from the sampler's / parent's trace state: C05.R2-R4
+    ck.doc('C05.R2', '(prerequisite, see C05) parent precedence decision table; the sampler and the recording Span receive the resolved parent', 9)
+    ck.doc('C05.R3', '(prerequisite, see C05) sources of trace id, span id, remote flag and trace state of the new context', 4)
+    ck.doc('C05.R4', '(prerequisite, see C05) not-recording edge => NoopSpan with the same context; recording edge => SDK Span', 2)
+    g5, rd5, sink5, vid5 = c05.rule_r2(ck, prog, sf)
+    c05.rule_r2_predicates(ck, prog)
+    if vid5 is not None:
+        sc5 = c05.rule_r3(ck, prog, sf, g5, rd5, vid5)
+        c05.rule_r4(ck, prog, sf, g5, rd5, sc5)
     return {}
